@@ -201,6 +201,22 @@ def systematic_batches(rng, thorough):
             for lr in (["ss", "bb", "sb"] if (rr, cc) in MAT_VIEWS else ["ss"]):
                 ops.append(f"mat {lr} {rr} {cc} {vs(a)} {vs(b)} {r.range(-9, 9)} {pos // cc} {pos % cc}")
     yield Batch("mat-one-entry-differs", ops, note="matrix == != + - on operands that differ in exactly one entry, every position of every shape")
+    # delete_row_and_column at every (row, column) of every shape; signed permutation matrices (det = +-1: sign and index errors of
+    # determinant / adjugate / inverse show on them)
+    import itertools
+    ops = []
+    for (rr, cc) in DEL_SHAPES:
+        for dr in range(rr):
+            for dc in range(cc):
+                for m in ("sb" if (rr, cc) in DEL_VIEWS else "s"):
+                    ops.append(f"del {m} {rr} {cc} {dr} {dc} {vs([10 * i + j + 1 for i in range(rr) for j in range(cc)])}")
+                    ops.append(f"del {m} {rr} {cc} {dr} {dc} {vs(rvec(r, rr * cc))}")
+    for n in (2, 3, 4):
+        for perm in itertools.permutations(range(n)):
+            for signs in ([1] * n, [(-1) ** i for i in range(n)], [-1] + [1] * (n - 1), [r.choice([-1, 1]) for _ in range(n)]):
+                flat = [signs[i] if perm[i] == j else 0 for i in range(n) for j in range(n)]
+                ops.append(f"sq {'sb'[(sum(perm) + len(ops)) % 2]} {n} {vs(flat)}")
+    yield Batch("del-all-positions-permutations", ops, note="delete_row_and_column at every position of every shape; all signed permutation matrices 2x2, 3x3, 4x4 (unimodular: inverse exact)")
 
 
 def neighbour_batches(rng, thorough):
